@@ -21,6 +21,7 @@ struct string {
     // std::string::operator[]: defined for i <= size() (s[size()] is the terminator); anything beyond is out of bounds
     char& operator[](size_t i) { __CPROVER_assert(i <= n, "string index <= size()"); return d[i]; }
     const char& operator[](size_t i) const { __CPROVER_assert(i <= n, "string index <= size()"); return d[i]; }
+    void reserve(size_t) {}
     void push_back(char c) { __CPROVER_assert(n + 1 < VX_CAP, "bounded string: capacity"); d[n] = c; n = n + 1; d[n] = 0; }
     size_t find(const string& pat, size_t pos) const {
         for (size_t i = pos; i + pat.n <= n; i = i + 1) {
